@@ -58,7 +58,10 @@ def check_case(ctx, ds, lname, n, schemes, dataset_obj=None, alg_obj=None, origi
             except Exception as e:
                 ctx.violation('copeland-raises', case, None, ranking, exc=e)
                 continue
-            _ = c.kemeny_score
+            try:
+                _ = c.kemeny_score   # the lazy score is written once; snapshots are taken after it
+            except Exception:
+                pass                 # a consensus that cannot be scored is reported by the structural checks below
             _lib.setdefault('earlier', EarlierResults()).check_and_remember(ctx, ('copeland', reused), c, case)
             if len(c.consensus_rankings) != 1:
                 ctx.violation('copeland-number-of-rankings', case, len(c.consensus_rankings), 1)
